@@ -187,7 +187,9 @@ def _so_post(c, v0, v1, r):
         d['%s.map_is_sample_of_greatest_weight' % nm] = c.Exists(0, N, lambda m, k=k, e=e: c.And(
             c.Eq(e['map'], res.samples[m, k]), c.Forall(0, N, lambda j: c.Le(res.weights[j], res.weights[m])))) \
             if c.mode != 'conc' else c.Eq(e['map'], res.samples[wmax, k])
-        d['%s.mean_is_weighted_mean' % nm] = c.Eq(e['mean'], c.Sum(0, N, lambda j, k=k: res.weights[j] * res.samples[j, k]) / tot)
+        # (a mean that cancels to zero is accurate relative to the samples, not to itself: scale for the float replay)
+        d['%s.mean_is_weighted_mean' % nm] = c.Eq(e['mean'], c.Sum(0, N, lambda j, k=k: res.weights[j] * res.samples[j, k]) / tot,
+                                                  scale=(max(abs(float(res.samples[j, k])) for j in range(N)) if c.mode == 'conc' and N else None))
         d['%s.trace_is_its_column' % nm] = c.Forall(0, N, lambda j, k=k, e=e: c.Eq(e['trace'][j], res.samples[j, k]))
     return d
 
@@ -620,7 +622,8 @@ def _dt_post(c, v0, v1, r):
             d['levels_16_50_84'] = Q == (0.16, 0.5, 0.84)
             d['summary_by_the_quantile_rule'] = c.And(c.Eq(e['value'], out[1]), c.Eq(e['sigma_m'], out[1] - out[0]),
                                                       c.Eq(e['sigma_p'], out[2] - out[1]))
-    d['mean'] = c.Eq(e['mean'], c.Sum(0, N, lambda j: w[j] * DV(j)) / c.Sum(0, N, lambda j: w[j]))
+    d['mean'] = c.Eq(e['mean'], c.Sum(0, N, lambda j: w[j] * DV(j)) / c.Sum(0, N, lambda j: w[j]),
+                     scale=(max(abs(float(DV(j))) for j in range(N)) if c.mode == 'conc' and N else None))
     return d
 
 
@@ -824,7 +827,8 @@ def _dtr_post(c, v0, v1, r):
             d['with_the_sample_weights'] = c.And(Wt.shape[0] == N, c.Forall(0, N, lambda i: Wt.elem((i,)) == w[i]))
             d['summary_by_the_quantile_rule'] = c.And(c.Eq(e['value'], out[1]), c.Eq(e['sigma_m'], out[1] - out[0]),
                                                       c.Eq(e['sigma_p'], out[2] - out[1]))
-    d['mean'] = c.Eq(e['mean'], c.Sum(0, N, lambda j: w[j] * DV(j)) / c.Sum(0, N, lambda j: w[j]))
+    d['mean'] = c.Eq(e['mean'], c.Sum(0, N, lambda j: w[j] * DV(j)) / c.Sum(0, N, lambda j: w[j]),
+                     scale=(max(abs(float(DV(j))) for j in range(N)) if c.mode == 'conc' and N else None))
     return d
 
 
